@@ -98,52 +98,23 @@ fn k_type_map() {
     }
 }
 
-/// K-INTRO-RT / K-INTRO-FIELDS: every accepted 16-byte intro re-serialises to itself up to the
-/// four reserved bytes, and its fields are the big-endian words of the input.
+/// K-INTRO-FIELDS: a 16-byte intro is accepted exactly when magic = 8e ad e8 and version = 1 (no
+/// other byte influences acceptance, in particular not the 4 reserved bytes); the accepted value
+/// carries the canonical magic/version and the big-endian words of bytes 8..16.
+/// This is the contract `IndexHeader::parse` has in the Verus composition (prelude/leaves.rs).
 #[kani::proof]
 #[kani::unwind(20)]
-fn k_intro_rt() {
-    let b: [u8; 16] = kani::any();
-    match IndexHeader::parse(&b) {
-        Ok(h) => {
-            assert!(b[0] == 0x8e && b[1] == 0xad && b[2] == 0xe8 && b[3] == 1);
-            assert!(h.num_entries == u32::from_be_bytes([b[8], b[9], b[10], b[11]]));
-            assert!(h.data_section_size == u32::from_be_bytes([b[12], b[13], b[14], b[15]]));
-            assert!(h.magic == HEADER_MAGIC && h.version == 1);
-            let mut s = FixedSink::<16>::new();
-            match h.write(&mut s) {
-                Ok(()) => {}
-                Err(e) => {
-                    std::mem::forget(e);
-                    panic!("write failed on an infallible sink");
-                }
-            }
-            assert!(s.len == 16);
-            let mut i = 0;
-            while i < 16 {
-                let want = if i >= 4 && i < 8 { 0 } else { b[i] };
-                assert!(s.buf[i] == want);
-                i += 1;
-            }
-            kani::cover!(true);
-        }
-        Err(e) => {
-            std::mem::forget(e);
-        }
-    }
-}
-
-/// K-INTRO-ACCEPT: the intro is accepted exactly when magic and version are right (no other
-/// byte influences acceptance) - together with K-INTRO-RT this gives parse(b) = parse(canon(b)).
-#[kani::proof]
-#[kani::unwind(20)]
-fn k_intro_accept() {
+fn k_intro_fields() {
     let b: [u8; 16] = kani::any();
     let good = b[0] == 0x8e && b[1] == 0xad && b[2] == 0xe8 && b[3] == 1;
     match IndexHeader::parse(&b) {
         Ok(h) => {
             assert!(good);
-            std::mem::forget(h);
+            assert!(h.num_entries == u32::from_be_bytes([b[8], b[9], b[10], b[11]]));
+            assert!(h.data_section_size == u32::from_be_bytes([b[12], b[13], b[14], b[15]]));
+            assert!(h.magic == HEADER_MAGIC && h.version == 1);
+            assert!(HEADER_MAGIC == [0x8e, 0xad, 0xe8]);
+            kani::cover!(true);
         }
         Err(e) => {
             assert!(!good);
@@ -152,38 +123,35 @@ fn k_intro_accept() {
     }
 }
 
-/// K-ENTRY-RT / K-ENTRY-FIELDS
+/// K-ENTRY-FIELDS: a 16-byte index entry is accepted exactly when its type code is < 10; the
+/// accepted value carries the big-endian words of the input, its data variant has that type
+/// code and is empty, and all 16 bytes are consumed.
 #[kani::proof]
 #[kani::unwind(20)]
-fn k_entry_rt() {
+fn k_entry_fields() {
     let b: [u8; 16] = kani::any();
+    let ty = u32::from_be_bytes([b[4], b[5], b[6], b[7]]);
     match IndexEntry::<IndexTag>::parse(&b) {
         Ok((rest, e)) => {
             assert!(rest.is_empty());
             assert!(e.tag == u32::from_be_bytes([b[0], b[1], b[2], b[3]]));
-            let ty = u32::from_be_bytes([b[4], b[5], b[6], b[7]]);
             assert!(ty < 10 && e.data.type_as_u32() == ty);
             assert!(e.offset == i32::from_be_bytes([b[8], b[9], b[10], b[11]]));
             assert!(e.num_items == u32::from_be_bytes([b[12], b[13], b[14], b[15]]));
-            let mut s = FixedSink::<16>::new();
-            match e.write_index(&mut s) {
-                Ok(()) => {}
-                Err(er) => {
-                    std::mem::forget(er);
-                    panic!("write failed on an infallible sink");
-                }
-            }
-            assert!(s.len == 16);
-            let mut i = 0;
-            while i < 16 {
-                assert!(s.buf[i] == b[i]);
-                i += 1;
-            }
+            let empty = match &e.data {
+                IndexData::Null => true,
+                IndexData::Char(v) | IndexData::Int8(v) | IndexData::Bin(v) => v.is_empty(),
+                IndexData::Int16(v) => v.is_empty(),
+                IndexData::Int32(v) => v.is_empty(),
+                IndexData::Int64(v) => v.is_empty(),
+                IndexData::StringTag(s) => s.is_empty(),
+                IndexData::StringArray(v) | IndexData::I18NString(v) => v.is_empty(),
+            };
+            assert!(empty);
             std::mem::forget(e);
             kani::cover!(true);
         }
         Err(er) => {
-            let ty = u32::from_be_bytes([b[4], b[5], b[6], b[7]]);
             assert!(ty >= 10);
             std::mem::forget(er);
         }
@@ -261,4 +229,163 @@ fn k_write_index_sink_1byte() {
 #[kani::unwind(20)]
 fn k_write_index_sink_fail5() {
     write_index_against(5);
+}
+
+// ---- decode helper leaves (contracts used by the Verus unit c01_parse via prelude/decode.rs) ----
+fn format_stub(_a: std::fmt::Arguments<'_>) -> String {
+    String::new()
+}
+
+/// K-TAKE-TILL-NUL: real nom `complete::take_till(|b| b == 0)` on every slice of length 0..=8:
+/// never errors; the head is the bytes before the first NUL, the rest starts at that NUL.
+#[kani::proof]
+#[kani::unwind(12)]
+fn k_take_till_nul() {
+    let b: [u8; 8] = kani::any();
+    let n: usize = kani::any();
+    kani::assume(n <= 8);
+    let s = &b[..n];
+    let r: nom::IResult<&[u8], &[u8], (&[u8], nom::error::ErrorKind)> = complete::take_till(|item| item == 0)(s);
+    match r {
+        Ok((rest, head)) => {
+            let mut k = 0;
+            while k < n && s[k] != 0 {
+                k += 1;
+            }
+            assert!(head.len() == k && rest.len() == n - k);
+            assert!(head.as_ptr() == s.as_ptr());
+            assert!(rest.as_ptr() == s[k..].as_ptr());
+        }
+        Err(e) => {
+            std::mem::forget(e);
+            panic!("take_till failed");
+        }
+    }
+}
+
+/// K-PARSE-BINARY-ENTRY: Ok iff count <= len; on Ok exactly input[..count] is appended.
+#[kani::proof]
+#[kani::unwind(12)]
+#[kani::stub(alloc::fmt::format, format_stub)]
+fn k_parse_binary_entry() {
+    let b: [u8; 8] = kani::any();
+    let n: usize = kani::any();
+    kani::assume(n <= 8);
+    let cnt: u32 = kani::any();
+    let mut items: Vec<u8> = Vec::new();
+    match parse_binary_entry(&b[..n], cnt, &mut items, "Bin") {
+        Ok(()) => {
+            assert!(cnt as usize <= n);
+            assert!(items.len() == cnt as usize);
+            let mut i = 0;
+            while i < 8 {
+                if i < cnt as usize {
+                    assert!(items[i] == b[i]);
+                }
+                i += 1;
+            }
+            kani::cover!(cnt == 3);
+        }
+        Err(e) => {
+            assert!(cnt as usize > n);
+            std::mem::forget(e);
+        }
+    }
+    std::mem::forget(items);
+}
+
+type NomE<'a> = (&'a [u8], nom::error::ErrorKind);
+
+/// K-DEC-U16 (bounded: slice length <= 8): Ok iff 2*count <= len; items are the BE words; the
+/// reserve request never exceeds what the input can supply (C04 allocation clause).
+#[kani::proof]
+#[kani::unwind(10)]
+fn k_dec_u16() {
+    let b: [u8; 8] = kani::any();
+    let n: usize = kani::any();
+    kani::assume(n <= 8);
+    let cnt: u32 = kani::any();
+    let mut items: Vec<u16> = Vec::new();
+    let r: nom::IResult<&[u8], (), NomE> = parse_entry_data_number(&b[..n], cnt, &mut items, be_u16);
+    match r {
+        Ok((rest, ())) => {
+            assert!(2 * (cnt as usize) <= n);
+            assert!(items.len() == cnt as usize && rest.len() == n - 2 * cnt as usize);
+            let mut i = 0;
+            while i < 4 {
+                if i < cnt as usize {
+                    assert!(items[i] == u16::from_be_bytes([b[2 * i], b[2 * i + 1]]));
+                }
+                i += 1;
+            }
+        }
+        Err(e) => {
+            assert!(2 * (cnt as u64) > n as u64);
+            std::mem::forget(e);
+        }
+    }
+    assert!(items.capacity() <= 8);
+    std::mem::forget(items);
+}
+
+#[kani::proof]
+#[kani::unwind(10)]
+fn k_dec_u32() {
+    let b: [u8; 12] = kani::any();
+    let n: usize = kani::any();
+    kani::assume(n <= 12);
+    let cnt: u32 = kani::any();
+    let mut items: Vec<u32> = Vec::new();
+    let r: nom::IResult<&[u8], (), NomE> = parse_entry_data_number(&b[..n], cnt, &mut items, be_u32);
+    match r {
+        Ok((rest, ())) => {
+            assert!(4 * (cnt as usize) <= n);
+            assert!(items.len() == cnt as usize && rest.len() == n - 4 * cnt as usize);
+            let mut i = 0;
+            while i < 3 {
+                if i < cnt as usize {
+                    assert!(items[i] == u32::from_be_bytes([b[4 * i], b[4 * i + 1], b[4 * i + 2], b[4 * i + 3]]));
+                }
+                i += 1;
+            }
+        }
+        Err(e) => {
+            assert!(4 * (cnt as u64) > n as u64);
+            std::mem::forget(e);
+        }
+    }
+    assert!(items.capacity() <= 12);
+    std::mem::forget(items);
+}
+
+#[kani::proof]
+#[kani::unwind(10)]
+fn k_dec_u64() {
+    let b: [u8; 16] = kani::any();
+    let n: usize = kani::any();
+    kani::assume(n <= 16);
+    let cnt: u32 = kani::any();
+    let mut items: Vec<u64> = Vec::new();
+    let r: nom::IResult<&[u8], (), NomE> = parse_entry_data_number(&b[..n], cnt, &mut items, be_u64);
+    match r {
+        Ok((rest, ())) => {
+            assert!(8 * (cnt as usize) <= n);
+            assert!(items.len() == cnt as usize && rest.len() == n - 8 * cnt as usize);
+            let mut i = 0;
+            while i < 2 {
+                if i < cnt as usize {
+                    let hi = u32::from_be_bytes([b[8 * i], b[8 * i + 1], b[8 * i + 2], b[8 * i + 3]]) as u64;
+                    let lo = u32::from_be_bytes([b[8 * i + 4], b[8 * i + 5], b[8 * i + 6], b[8 * i + 7]]) as u64;
+                    assert!(items[i] == hi * 0x1_0000_0000 + lo);
+                }
+                i += 1;
+            }
+        }
+        Err(e) => {
+            assert!(8 * (cnt as u64) > n as u64);
+            std::mem::forget(e);
+        }
+    }
+    assert!(items.capacity() <= 16);
+    std::mem::forget(items);
 }
